@@ -218,11 +218,15 @@ Definition ld (k : skind) (d : value) : leafdata :=
 Definition fx_tree : list pt :=
   [ PLeaf [101] None (ld KT [VT false]);                                     (* rToggle(e)            *)
     PSub [115] None (Some [101]) None [ PLeaf [120] None (ld KI [VI 3]) ];   (* rRecurp(s) -> rParamI(x) *)
-    PLeaf [116] (Some 3%nat) (ld KB [VI 1; VI 1; VI 1]) ].                   (* rArrayI(t, 3)         *)
+    PLeaf [116] (Some 3%nat) (ld KB [VI 1; VI 1; VI 1]);                     (* rArrayI(t, 3)         *)
+    PLeaf [110] None {| ld_kind := KI; ld_min := None; ld_max := None; ld_opts := []; ld_default := [];
+                        ld_sel := None; ld_table := []; ld_nodef := true; ld_init := [VI 7] |} ].
+                                                                             (* rParamI(n) without rDefault *)
 Definition fx_tapp : app :=
   [mkp [47; 101] KT false 1 [VT false] [];
    mkp [47; 115; 47; 120] KI false 1 [VI 3] [0%nat];
-   mkp [47; 116] KB true 3 [VI 1; VI 1; VI 1] []].
+   mkp [47; 116] KB true 3 [VI 1; VI 1; VI 1] [];
+   mkp_nodef [47; 110] KI [VI 7]].
 (* the metadata lookup: "s/" is enabled by "e" *)
 Definition apropos_fx (p : str) : option pmeta :=
   if str_eqb p [47; 115; 47]
@@ -242,9 +246,10 @@ Proof.
     + intros q g Hq Hg. three q; simpl in Hg; try contradiction.
       destruct Hg as [Hg|[]]. subst g. simpl. repeat split; try lia; try reflexivity;
         try (intros x []); intros [].
-    + intros i Hi. three i; simpl; repeat split; try lia; try reflexivity; try discriminate;
-        intros selv; unfold default_with; simpl; destruct selv as [v|]; try reflexivity;
-        destruct (sel_key v); reflexivity.
+    + intros i Hi. three i; simpl; (split; [lia|]); (split; [try reflexivity; discriminate|]);
+        (split; [intros Hnd; try discriminate Hnd; intros selv; unfold default_with; simpl;
+                 destruct selv as [v|]; try reflexivity; destruct (sel_key v); reflexivity
+                |intros Hnd; try discriminate Hnd; split; reflexivity]).
   - intros i Hi. three i; reflexivity.
   - intros i x Hi Hx. change (saved fx_tapp fx_state) with [0%nat; 1%nat; 2%nat] in Hi.
     destruct Hi as [Hi|[Hi|[Hi|[]]]]; subst i; simpl in Hx;
@@ -261,7 +266,7 @@ Theorem pipeline_tree_nonvacuous :
   (exists ps, pushes line apropos_fx 20 (msgs (save_lines a fx_state)) = Some ps /\ ranked ps) /\
   (* the lines of the saved file handed to the tree: switch first restores the state ... *)
   real_apply (fun _ l s => tree_apply_line no_hash_search one_id fx_tree l s) a
-             (map (the_line a fx_state) [0; 2; 1]%nat) (initial a) = (fx_state, true) /\
+             (map (the_line a fx_state) [0; 2; 1]%nat) (initial a) = (fx_loaded, true) /\
   (* ... the line below the pointer sub-tree in front of its switch reaches no port *)
   tree_apply_line no_hash_search one_id fx_tree (the_line a fx_state 1) (initial a) = None.
 Proof.
@@ -271,7 +276,7 @@ Proof.
   split.
   { intros i Hi. three i; split; unfold value_comparable; repeat constructor. }
   split.
-  { intros i x Hx. destruct i as [|[|[|i]]]; simpl in Hx;
+  { intros i x Hx. destruct i as [|[|[|[|i]]]]; simpl in Hx;
       repeat (destruct Hx as [Hx|Hx]; [subst x; exact I|]); try contradiction.
     unfold val_at in Hx. destruct i; simpl in Hx; contradiction. }
   split; [apply declared_b_sound; vm_compute; reflexivity|].
